@@ -127,8 +127,8 @@ def _has_square(node, shared, seen=None):
     if isinstance(node[0], str):
         if node[0] == 'powc' and float(node[2]) == 2.0:
             return True
-        if node[0] == 'pow' and node[2][0] == 'num' and float(node[2][1]) == 2.0 and len(node[2]) > 2:
-            return True  # x ** 2.0 written with a raw number becomes PowerConstant
+        if node[0] == 'pow' and node[2][0] == 'num' and float(node[2][1]) == 2.0:
+            return True  # x ** 2.0 (raw number or Numeric) becomes PowerConstant
         if node[0] == 'share':
             if node[1] in seen:
                 return False
@@ -144,7 +144,7 @@ def _squares_as_products(node):
         if node and node[0] == 'powc' and float(node[2]) == 2.0:
             u = _squares_as_products(node[1])
             return ['mul', u, u]
-        if node and node[0] == 'pow' and node[2][0] == 'num' and float(node[2][1]) == 2.0 and len(node[2]) > 2:
+        if node and node[0] == 'pow' and node[2][0] == 'num' and float(node[2][1]) == 2.0:
             u = _squares_as_products(node[1])
             return ['mul', u, u]
         return [_squares_as_products(x) for x in node]
@@ -167,7 +167,37 @@ def _subst_row(node, data, row):
     return node
 
 
+NOT_REPRODUCIBLE = 'C02/engine-derivative-output-not-reproducible-between-identical-evaluations'
+
+
 def run_case(case):
+    """A derivative mismatch must reproduce when the very same case is executed again in the same
+    process. The pinned engine occasionally returns arbitrary bit patterns in Hessian entries (use-after-free
+    of a shared child's derivative buffers, see the ASan stage): such firings do not reproduce and are
+    reported under one mechanism of their own instead of under the monitor that happened to see them."""
+    out = _run_case_once(case)
+    if not out['viol'] or case.get('kind') not in (None, 'random'):
+        return out
+    known_shapes = ('linear-utility-repeated-parameter', 'power-constant-2-hessian')
+    suspicious = [v for v in out['viol'] if not any(k in v['mech'] for k in known_shapes)]
+    if not suspicious:
+        return out
+    again = _run_case_once(case)
+    mechs2 = {v['mech'] for v in again['viol']}
+    kept, dropped = [], []
+    for v in out['viol']:
+        (kept if (v['mech'] in mechs2 or any(k in v['mech'] for k in known_shapes)) else dropped).append(v)
+    if dropped:
+        kept.append({'mech': NOT_REPRODUCIBLE,
+                     'msg': 'mismatch seen once and not when the same case was executed again in the same process: '
+                            + '; '.join(sorted({v['mech'] for v in dropped})) + ' | first: ' + dropped[0]['msg'][:600],
+                     'witness': dropped[0].get('witness')})
+        out['cov']['derivative_mismatch_not_reproduced_on_reexecution'] = len(dropped)
+    out['viol'] = kept
+    return out
+
+
+def _run_case_once(case):
     from ..gen import exprs, build
     from ..oracle import evalast
     from biogeme.exceptions import BiogemeError
@@ -674,6 +704,16 @@ def _nodb_directed(case, rec):
         if not close(r.function, fref, 1e-9, 1e-12) or not close(r.gradient, gref, 1e-9, 1e-12):
             rec.violation(f'C02/{label}-gradient-differs', f'{r.function},{np.asarray(r.gradient).tolist()} vs {fref},{gref}', {'directed': k})
     return rec.out()
+
+
+def extra(seed, tier, workdir):
+    """thorough: the same workload on the ASan/UBSan build of the pinned engine"""
+    from . import _sanitizer
+
+    if tier != 'thorough':
+        return []
+    cases_ = [{'seed': seed + 77, 'i': i, 'kind': 'random'} for i in range(1500)]
+    return _sanitizer.run_under_asan('C02', 'biomon.checks.c02', cases_, workdir, tier)
 
 
 def finalize(cov, tier):
